@@ -174,7 +174,7 @@ class ValueSpelling(ManifestHarness):
 
 class Attributes(ManifestHarness):
     """two rules, two build statements, every step attribute the property names (description, depfile, deps, rspfile +
-    rspfile_content, pool, hide_success / hide_progress) bound at rule level, at build level or not at all; whole-line
+    rspfile_content, pool, hide_success / hide_progress) bound at rule level, at build level (once or twice: the last binding wins) or not at all; whole-line
     comments (symbolic bytes, may contain `$`, `:`, `|`, `#`) and blank lines at a symbolic position between statements"""
 
     def generate(self, I):
@@ -218,7 +218,10 @@ class Attributes(ManifestHarness):
         o1 = B('o') + [nb]
         i1 = B('i') + [nb]
         t.add('build ').add(o1).add(': r ').add(i1).add('\n')
+        dup = I.choose('dup', 2) == 1              # a binding repeated inside the build block: the last one wins
         if where_desc == 2:
+            if dup:
+                t.add('  description = first\n')
             t.add('  description = B').add([nb]).add('\n')
         if where_dep == 2:
             t.add('  depfile = dd').add([nb]).add('\n')
